@@ -105,46 +105,67 @@ Definition ShInv (s : shared) : Prop :=
   (forall n i c, In (EvClaim n i c) (log s) -> own s i = Some (c, n)) /\
   (forall i, next s < i -> own s i = None) /\
   (forall i r, recs s i = Some r ->
-     In (EvClaim (r_name r) i (r_client r)) (log s) /\ In (EvWrite i (r_client r) (r_target r)) (log s)).
+     In (EvClaim (r_name r) i (r_client r)) (log s) /\ In (EvWrite i (r_client r) (r_target r)) (log s)) /\
+  cttl s = false.                      (* the counter key never carries a deadline: it cannot vanish *)
 
 Definition pre (a : act) (s : shared) : Prop :=
   match a with
   | ASetNext _ _ _ => False
-  | AReset => False
+  | AIncr _ _ => cexists s = true
   | AClaim n i c => idx s n = None /\ own s i = Some (c, n)
   | AWrite i r => In (EvClaim (r_name r) i (r_client r)) (log s)
   | AUnidx n i c => idx s n = Some i /\ In (EvClaim n i c) (log s)
   | _ => True
   end.
 
+Lemma exec_reset_noop s : cttl s = false -> exec AReset s = s.
+Proof. intros H. cbn. rewrite H, andb_false_r. reflexivity. Qed.
+
 Lemma log_mono a s e : In e (log s) -> In e (log (exec a s)).
-Proof. destruct a; cbn; auto. Qed.
+Proof.
+  destruct a; cbn; auto.
+  - destruct (cexists s && cttl s); auto.
+  - destruct (cexists s); auto.
+Qed.
 
 Lemma own_mono a s i v : ShInv s -> pre a s -> own s i = Some v -> own (exec a s) i = Some v.
 Proof.
   intros (_ & _ & _ & Hfresh & _) Hp Ho. destruct a; cbn in *; auto; try contradiction.
-  rewrite upd_n_other; [exact Ho|]. intros ->. rewrite Hfresh in Ho by lia. discriminate.
+  - rewrite upd_n_other; [exact Ho|]. intros ->. rewrite Hfresh in Ho by lia. discriminate.
+  - destruct (cexists s && cttl s); exact Ho.
+  - destruct (cexists s); exact Ho.
+Qed.
+
+Lemma cexists_mono a s : ShInv s -> cexists s = true -> cexists (exec a s) = true.
+Proof.
+  intros (_ & _ & _ & _ & _ & Httl) He. destruct a; cbn; auto.
+  - rewrite Httl, andb_false_r. exact He.
+  - rewrite He. exact He.
 Qed.
 
 Lemma sh_step a s : ShInv s -> pre a s -> ShInv (exec a s).
 Proof.
-  intros (Hidx & Hok & Hown & Hfresh & Hrec) Hp.
-  destruct a; cbn in Hp; try contradiction; unfold ShInv; cbn [exec next idx recs lists rguard own log];
-    try (split; [exact Hidx|split; [exact Hok|split; [exact Hown|split; [exact Hfresh|exact Hrec]]]]).
+  intros (Hidx & Hok & Hown & Hfresh & Hrec & Httl) Hp.
+  destruct a; cbn in Hp; try contradiction; unfold ShInv; cbn [exec next cexists cttl idx recs lists rguard own log];
+    try (split; [exact Hidx|split; [exact Hok|split; [exact Hown|split; [exact Hfresh|split; [exact Hrec|exact Httl]]]]]).
   - (* AIncr *)
-    split; [exact Hidx|split; [exact Hok|split; [|split; [|exact Hrec]]]].
+    split; [exact Hidx|split; [exact Hok|split; [|split; [|split; [exact Hrec|rewrite Hp; exact Httl]]]]].
     + intros n0 i c0 Hin. rewrite upd_n_other; [now apply Hown|].
       intros ->. apply Hown in Hin. rewrite Hfresh in Hin by lia. discriminate.
     + intros i Hi. rewrite upd_n_other by lia. apply Hfresh. lia.
+  - (* AReset: the key has no deadline, nothing happens *)
+    rewrite Httl, andb_false_r. split; [exact Hidx|split; [exact Hok|split; [exact Hown|split; [exact Hfresh|split; [exact Hrec|exact Httl]]]]].
+  - (* AEnsure *)
+    destruct (cexists s); cbn; (split; [exact Hidx|split; [exact Hok|split; [exact Hown|split; [exact Hfresh|split; [exact Hrec|auto]]]]]).
   - (* AClaim *)
     destruct Hp as [Hfree Ho].
-    split; [|split; [|split; [|split; [exact Hfresh|]]]].
+    split; [|split; [|split; [|split; [exact Hfresh|split; [|exact Httl]]]]].
     + intros m. cbn. unfold upd_name. destruct (name_eqb m n); [reflexivity|apply Hidx].
     + cbn. split; [rewrite <- Hidx; exact Hfree|exact Hok].
     + intros n0 i0 c0 [E|Hin]; [inversion E; subst; exact Ho|now apply Hown].
     + intros i0 r Hr. destruct (Hrec i0 r Hr) as [H1 H2]. split; right; assumption.
   - (* AWrite *)
-    split; [|split; [|split; [|split; [exact Hfresh|]]]].
+    split; [|split; [|split; [|split; [exact Hfresh|split; [|exact Httl]]]]].
     + intros m. cbn. apply Hidx.
     + cbn. exact Hok.
     + intros n0 i0 c0 [E|Hin]; [discriminate|now apply Hown].
@@ -153,13 +174,13 @@ Proof.
       * destruct (Hrec i0 r0 Hr) as [H1 H2]. split; right; assumption.
   - (* AUnidx *)
     destruct Hp as [Hmine Hcl].
-    split; [|split; [|split; [|split; [exact Hfresh|]]]].
+    split; [|split; [|split; [|split; [exact Hfresh|split; [|exact Httl]]]]].
     + intros m. cbn. unfold upd_name. destruct (name_eqb m n); [reflexivity|apply Hidx].
     + cbn. split; [rewrite <- Hidx; exact Hmine|split; [exact Hcl|exact Hok]].
     + intros n0 i0 c0 [E|Hin]; [discriminate|now apply Hown].
     + intros i0 r Hr. destruct (Hrec i0 r Hr) as [H1 H2]. split; right; assumption.
   - (* ADelRec *)
-    split; [exact Hidx|split; [exact Hok|split; [exact Hown|split; [exact Hfresh|]]]].
+    split; [exact Hidx|split; [exact Hok|split; [exact Hown|split; [exact Hfresh|split; [|exact Httl]]]]].
     intros i0 r Hr. unfold upd_n in Hr. destruct (N.eqb i0 i); [discriminate|]. now apply Hrec.
 Qed.
 
@@ -181,11 +202,10 @@ Qed.
 (* invariant of one caller                                                                          *)
 (* ------------------------------------------------------------------------------------------------ *)
 
-Definition no_reset (o : list op) : Prop := forall x, In x o -> x <> OResetCounter.
-
 Definition pc_ok (s : shared) (c : client) (p : pcT) : Prop :=
   match p with
   | Idle => True
+  | PCIncr _ _ _ => cexists s = true
   | PCSetNX i n _ => own s i = Some (c, n)
   | PCSetRec i n _ => In (EvClaim n i c) (log s)
   | PCAppend i n => In (EvClaim n i c) (log s)
@@ -209,7 +229,7 @@ Definition H_ok (s : shared) (t : thr) : Prop := forall i n, In (i, n) (held t) 
 Definition O_ok (s : shared) (t : thr) : Prop := forall r, In r (out t) -> res_ok s r.
 
 Definition ThrOk (s : shared) (t : thr) : Prop :=
-  H_ok s t /\ O_ok s t /\ no_reset (ops t) /\ pc_ok s (cl t) (pc t).
+  H_ok s t /\ O_ok s t /\ pc_ok s (cl t) (pc t).
 
 Lemma res_ok_mono a s r : res_ok s r -> res_ok (exec a s) r.
 Proof. destruct r; cbn; auto. intros H E. destruct (H E). split; now apply log_mono. Qed.
@@ -218,24 +238,21 @@ Proof. intros H i n Hin. apply log_mono. now apply H. Qed.
 Lemma O_ok_mono a s t : O_ok s t -> O_ok (exec a s) t.
 Proof. intros H r Hin. apply res_ok_mono. now apply H. Qed.
 
-Lemma no_reset_tl o : no_reset o -> no_reset (tl o).
-Proof. intros H x Hx. apply H. destruct o; [exact Hx|now right]. Qed.
-
-Lemma ok_finish s t fs r : H_ok s t -> O_ok s t -> no_reset (ops t) -> res_ok s r -> ThrOk s (finish t fs r).
+Lemma ok_finish s t fs r : H_ok s t -> O_ok s t -> res_ok s r -> ThrOk s (finish t fs r).
 Proof.
-  intros Hh Ho Hn Hr. unfold ThrOk, finish, H_ok, O_ok; cbn.
-  split; [exact Hh|split; [|split; [now apply no_reset_tl|exact I]]].
+  intros Hh Ho Hr. unfold ThrOk, finish, H_ok, O_ok; cbn.
+  split; [exact Hh|split; [|exact I]].
   intros r0 [<-|Hin]; [exact Hr|now apply Ho].
 Qed.
 
-Lemma ok_goto s t fs p : H_ok s t -> O_ok s t -> no_reset (ops t) -> pc_ok s (cl t) p -> ThrOk s (goto t fs p).
-Proof. intros Hh Ho Hn Hp. unfold ThrOk, goto, H_ok, O_ok; cbn. auto. Qed.
+Lemma ok_goto s t fs p : H_ok s t -> O_ok s t -> pc_ok s (cl t) p -> ThrOk s (goto t fs p).
+Proof. intros Hh Ho Hp. unfold ThrOk, goto, H_ok, O_ok; cbn. auto. Qed.
 
 Lemma ok_finish_created s t fs i n :
-  H_ok s t -> O_ok s t -> no_reset (ops t) -> In (EvClaim n i (cl t)) (log s) -> ThrOk s (finish_created t fs i n).
+  H_ok s t -> O_ok s t -> In (EvClaim n i (cl t)) (log s) -> ThrOk s (finish_created t fs i n).
 Proof.
-  intros Hh Ho Hn Hc. unfold ThrOk, finish_created, H_ok, O_ok; cbn.
-  split; [|split; [|split; [now apply no_reset_tl|exact I]]].
+  intros Hh Ho Hc. unfold ThrOk, finish_created, H_ok, O_ok; cbn.
+  split; [|split; [|exact I]].
   - intros i0 n0 [E|Hin]; [inversion E; subst; exact Hc|now apply Hh].
   - intros r0 [<-|Hin]; [exact I|now apply Ho].
 Qed.
@@ -245,6 +262,8 @@ Lemma idx_stable a s n i :
   pre a s -> idx s n = Some i -> (forall n' i' c', a = AUnidx n' i' c' -> i' <> i) -> idx (exec a s) n = Some i.
 Proof.
   intros Hp Hi Hne. destruct a; cbn in *; auto.
+  - destruct (cexists s && cttl s); exact Hi.
+  - destruct (cexists s); exact Hi.
   - destruct Hp as [Hfree _]. rewrite upd_name_other; [exact Hi|]. intros ->. congruence.
   - destruct Hp as [Hmine _]. rewrite upd_name_other; [exact Hi|]. intros ->.
     rewrite Hmine in Hi. inversion Hi. subst. now apply (Hne n0 i c).
@@ -253,9 +272,10 @@ Qed.
 Lemma thr_stable a s x :
   ShInv s -> pre a s -> ThrOk s x -> (forall n i c, a = AUnidx n i c -> ~ In i (guards_of x)) -> ThrOk (exec a s) x.
 Proof.
-  intros Hs Hp (Hh & Ho & Hn & Hpc) Hg.
-  split; [now apply H_ok_mono|split; [now apply O_ok_mono|split; [exact Hn|]]].
-  unfold guards_of in Hg. destruct (pc x) as [| | | | |k i n st e| | | | | | |]; cbn in *; try contradiction; auto.
+  intros Hs Hp (Hh & Ho & Hpc) Hg.
+  split; [now apply H_ok_mono|split; [now apply O_ok_mono|]].
+  unfold guards_of in Hg. destruct (pc x) as [| | | | | |k i n st e| | | | | | |]; cbn in *; try contradiction; auto.
+  - now apply cexists_mono.
   - now apply own_mono.
   - now apply log_mono.
   - now apply log_mono.
@@ -296,9 +316,9 @@ Section Steps.
   Qed.
 
   Lemma ok_rm_end s t fs k i e :
-    H_ok s t -> O_ok s t -> no_reset (ops t) -> ThrOk s (rm_end t fs k i e) /\ guards_of (rm_end t fs k i e) = [].
+    H_ok s t -> O_ok s t -> ThrOk s (rm_end t fs k i e) /\ guards_of (rm_end t fs k i e) = [].
   Proof.
-    intros Hh Ho Hn. unfold rm_end. destruct k; [split; [apply ok_finish; auto; exact I|reflexivity]|].
+    intros Hh Ho. unfold rm_end. destruct k; [split; [apply ok_finish; auto; exact I|reflexivity]|].
     destruct e; split; try reflexivity; [apply ok_finish|apply ok_goto]; auto; exact I.
   Qed.
 
@@ -311,45 +331,42 @@ Section Steps.
 
   (* the common shape "finish with an error / a storage-free answer, no action" *)
   Lemma step_finish s t fs r :
-    H_ok s t -> O_ok s t -> no_reset (ops t) -> res_ok s r -> step_ok s t (finish t fs r, ANone).
+    H_ok s t -> O_ok s t -> res_ok s r -> step_ok s t (finish t fs r, ANone).
   Proof.
-    intros Hh Ho Hn Hr. unfold step_ok; cbn [fst snd]. split; [exact I|split; [|cbn; right; reflexivity]].
+    intros Hh Ho Hr. unfold step_ok; cbn [fst snd]. split; [exact I|split; [|cbn; right; reflexivity]].
     cbn [exec]. now apply ok_finish.
   Qed.
 
   Lemma step_goto_none s t fs p :
-    H_ok s t -> O_ok s t -> no_reset (ops t) -> pc_ok s (cl t) p ->
+    H_ok s t -> O_ok s t -> pc_ok s (cl t) p ->
     (guards_of (goto t fs p) = guards_of t \/ guards_of (goto t fs p) = []) -> step_ok s t (goto t fs p, ANone).
   Proof.
-    intros Hh Ho Hn Hp Hg. unfold step_ok; cbn [fst snd]. split; [exact I|split; [|exact Hg]].
+    intros Hh Ho Hp Hg. unfold step_ok; cbn [fst snd]. split; [exact I|split; [|exact Hg]].
     cbn [exec]. now apply ok_goto.
   Qed.
 
-  Lemma decide_ok s t : ShInv s -> ThrOk s t -> step_ok s t (decide true true reg cloud t s).
+  Lemma decide_ok s t : ShInv s -> ThrOk s t -> step_ok s t (decide true true true reg cloud t s).
   Proof.
-    intros Hs (Hh & Ho & Hn & Hpc). pose proof Hs as (Hidx & Hlok & Hown & Hfresh & Hrec).
+    intros Hs (Hh & Ho & Hpc). pose proof Hs as (Hidx & Hlok & Hown & Hfresh & Hrec & Httl).
     unfold decide. destruct (next_fault t) as [f fs].
-    destruct (pc t) as [|v sub base tgt|i n tgt|i n tgt|i n|k i n st e|i n|i n|i n|i|i|i n st ex tgt|h n i now] eqn:Epc;
+    destruct (pc t) as [|sub base tgt|v sub base tgt|i n tgt|i n tgt|i n|k i n st e|i n|i n|i n|i|i|i n st ex tgt|h n i now] eqn:Epc;
       cbn in Hpc; try contradiction.
     - (* Idle *)
       destruct (ops t) as [|o rest] eqn:Eops.
       { unfold step_ok; cbn [fst snd exec]. split; [exact I|split; [|cbn; left; reflexivity]].
-        unfold ThrOk. rewrite Epc, Eops. cbn. auto. }
-      assert (Hn0 : no_reset (ops t)) by (rewrite Eops; exact Hn).
+        unfold ThrOk. rewrite Epc. cbn. auto. }
       destruct o as [sub base tgt|r|k st ex tgt|h now|].
-      + (* create: Incr *)
+      + (* create: SetNX of the counter key *)
         destruct f; [apply step_finish; auto; exact I|].
-        unfold step_ok; cbn [fst snd]. split; [exact I|]. unfold after_incr.
-        destruct (valid_create (cl t) sub tgt).
-        * split; [|cbn; unfold guards_of; rewrite Epc; cbn; left; reflexivity].
-          apply ok_goto; auto using H_ok_mono, O_ok_mono. cbn. apply upd_n_same.
-        * split; [|cbn; right; reflexivity]. apply ok_finish; auto using H_ok_mono, O_ok_mono; try exact I.
+        unfold step_ok; cbn [fst snd]. split; [exact I|].
+        split; [|cbn; unfold guards_of; rewrite Epc; cbn; left; reflexivity].
+        apply ok_goto; auto using H_ok_mono, O_ok_mono. cbn [pc_ok exec]. destruct (cexists s) eqn:Ece; [exact Ece|reflexivity].
       + (* delete: Get record *)
         destruct f; [apply step_finish; auto; exact I|].
         destruct (recs s (resolve t r)) as [m|] eqn:Er; [|apply step_finish; auto; exact I].
         destruct (negb (N.eqb (r_client m) (cl t))) eqn:Ec; [apply step_finish; auto; exact I|].
         apply negb_false_iff, N.eqb_eq in Ec.
-        apply step_goto_none; [assumption|assumption|assumption| |].
+        apply step_goto_none; [assumption|assumption| |].
         * cbn. split; [|discriminate]. destruct (Hrec _ _ Er) as [H1 _]. rewrite Ec in H1. exact H1.
         * unfold guards_of. rewrite Epc. cbn. left; reflexivity.
       + (* update: Get record *)
@@ -360,17 +377,25 @@ Section Steps.
         destruct (N.eqb tgt 0); [apply step_finish; auto; exact I|].
         apply negb_false_iff, andb_prop in Ec. destruct Ec as [E1 E2].
         apply name_eqb_eq in E1. apply N.eqb_eq in E2.
-        apply step_goto_none; [assumption|assumption|assumption| |].
+        apply step_goto_none; [assumption|assumption| |].
         * cbn. destruct (Hrec _ _ Er) as [H1 _]. rewrite E1, E2 in H1. exact H1.
         * unfold guards_of. rewrite Epc. cbn. left; reflexivity.
       + (* lookup: Get index *)
         destruct f; [apply step_finish; auto; exact I|].
         destruct (idx s (extractDomain h)) as [i|] eqn:Ei; [|apply step_finish; auto; apply fallback_ok].
-        apply step_goto_none; [assumption|assumption|assumption| |].
+        apply step_goto_none; [assumption|assumption| |].
         * cbn. split; [reflexivity|]. rewrite Hidx in Ei. exact (holder_in _ _ _ Ei).
         * unfold guards_of. rewrite Epc. cbn. left; reflexivity.
-      + (* the counter never disappears in this development *)
-        exfalso. apply (Hn OResetCounter); [now left|reflexivity].
+      + (* the clock passes the counter's deadline: it has none *)
+        unfold step_ok; cbn [fst snd]. split; [exact I|split; [|cbn [guard_rel]; right; reflexivity]].
+        apply ok_finish; auto using H_ok_mono, O_ok_mono; try exact I.
+    - (* Incr *)
+      unfold incr_step. destruct f; [apply step_finish; auto; exact I|].
+      unfold step_ok; cbn [fst snd]. split; [exact Hpc|]. unfold after_incr.
+      destruct (valid_create (cl t) sub tgt).
+      * split; [|cbn; unfold guards_of; rewrite Epc; cbn; left; reflexivity].
+        apply ok_goto; auto using H_ok_mono, O_ok_mono. cbn. apply upd_n_same.
+      * split; [|cbn; right; reflexivity]. apply ok_finish; auto using H_ok_mono, O_ok_mono; try exact I.
     - (* SetNX on the index *)
       destruct f; [apply step_finish; auto; exact I|].
       destruct (idx s n) as [j|] eqn:Ei; [apply step_finish; auto; exact I|].
@@ -379,7 +404,7 @@ Section Steps.
       apply ok_goto; auto using H_ok_mono, O_ok_mono. cbn. now left.
     - (* Set record *)
       destruct f.
-      + unfold rollback_after_setrec. apply step_goto_none; [assumption|assumption|assumption| |].
+      + unfold rollback_after_setrec. apply step_goto_none; [assumption|assumption| |].
  * cbn. split; [exact Hpc|discriminate].
  * unfold guards_of. rewrite Epc. cbn. left; reflexivity.
       + unfold step_ok; cbn [fst snd]. split; [exact Hpc|].
@@ -387,7 +412,7 @@ Section Steps.
         apply ok_goto; auto using H_ok_mono, O_ok_mono. cbn. right. exact Hpc.
     - (* Append to the client list *)
       destruct f.
-      + unfold rollback_after_append. apply step_goto_none; [assumption|assumption|assumption| |].
+      + unfold rollback_after_append. apply step_goto_none; [assumption|assumption| |].
  * cbn. split; [exact Hpc|discriminate].
  * unfold guards_of. rewrite Epc. cbn. left; reflexivity.
       + unfold step_ok; cbn [fst snd]. split; [exact I|split; [|cbn; right; reflexivity]].
@@ -397,7 +422,7 @@ Section Steps.
       destruct st.
       + (* SetNX guard *)
         assert (Hend : forall err, step_ok s t (rm_end t fs k i err, ANone)).
-        { intros err. destruct (ok_rm_end s t fs k i err Hh Ho Hn) as [H1 H2].
+        { intros err. destruct (ok_rm_end s t fs k i err Hh Ho) as [H1 H2].
           unfold step_ok; cbn [fst snd exec]. split; [exact I|split; [exact H1|cbn; right; exact H2]]. }
         destruct f; [apply Hend|]. destruct (rguard s i) eqn:Eg; [apply Hend|].
         unfold step_ok; cbn [fst snd]. split; [exact I|split].
@@ -405,33 +430,33 @@ Section Steps.
         * cbn. unfold guards_of. rewrite Epc. cbn. auto.
       + (* Get index *)
         destruct f.
-        { apply step_goto_none; [assumption|assumption|assumption|cbn; split; [exact Hc|discriminate]|].
+        { apply step_goto_none; [assumption|assumption|cbn; split; [exact Hc|discriminate]|].
           unfold guards_of. rewrite Epc. cbn. left; reflexivity. }
         destruct (idx s n) as [j|] eqn:Ei.
         * destruct (N.eqb j i) eqn:Ej.
-          -- apply N.eqb_eq in Ej. subst j. apply step_goto_none; [assumption|assumption|assumption|cbn; split; [exact Hc|intros _; exact Ei]|].
+          -- apply N.eqb_eq in Ej. subst j. apply step_goto_none; [assumption|assumption|cbn; split; [exact Hc|intros _; exact Ei]|].
              unfold guards_of. rewrite Epc. cbn. left; reflexivity.
-          -- apply step_goto_none; [assumption|assumption|assumption|cbn; split; [exact Hc|discriminate]|].
+          -- apply step_goto_none; [assumption|assumption|cbn; split; [exact Hc|discriminate]|].
              unfold guards_of. rewrite Epc. cbn. left; reflexivity.
-        * apply step_goto_none; [assumption|assumption|assumption|cbn; split; [exact Hc|discriminate]|].
+        * apply step_goto_none; [assumption|assumption|cbn; split; [exact Hc|discriminate]|].
           unfold guards_of. rewrite Epc. cbn. left; reflexivity.
       + (* Delete index *)
         destruct f.
-        { apply step_goto_none; [assumption|assumption|assumption|cbn; split; [exact Hc|discriminate]|].
+        { apply step_goto_none; [assumption|assumption|cbn; split; [exact Hc|discriminate]|].
           unfold guards_of. rewrite Epc. cbn. left; reflexivity. }
         unfold step_ok; cbn [fst snd]. split; [split; [now apply Hi|exact Hc]|split].
         * apply ok_goto; auto using H_ok_mono, O_ok_mono. cbn. split; [right; exact Hc|discriminate].
         * cbn. unfold guards_of. rewrite Epc. cbn. auto.
       + (* Delete record *)
         destruct f.
-        { apply step_goto_none; [assumption|assumption|assumption|cbn; split; [exact Hc|discriminate]|].
+        { apply step_goto_none; [assumption|assumption|cbn; split; [exact Hc|discriminate]|].
           unfold guards_of. rewrite Epc. cbn. left; reflexivity. }
         unfold step_ok; cbn [fst snd]. split; [exact I|split].
         * apply ok_goto; auto using H_ok_mono, O_ok_mono. cbn. split; [exact Hc|discriminate].
         * cbn. unfold guards_of. rewrite Epc. cbn. left; reflexivity.
       + (* release the guard *)
         destruct f.
-        * destruct (ok_rm_end s t fs k i e Hh Ho Hn) as [H1 H2].
+        * destruct (ok_rm_end s t fs k i e Hh Ho) as [H1 H2].
           unfold step_ok; cbn [fst snd exec]. split; [exact I|split; [exact H1|cbn; right; exact H2]].
         * destruct (ok_rm_end (exec (ADrop i) s) t fs k i e) as [H1 H2]; auto using H_ok_mono, O_ok_mono.
           unfold step_ok; cbn [fst snd]. split; [exact I|split; [exact H1|]].
@@ -462,7 +487,7 @@ End Steps.
 
 Section Sys.
   Variables reg cloud : name -> option pmap.
-  Notation dstepF := (dstep true true reg cloud).
+  Notation dstepF := (dstep true true true reg cloud).
 
   Definition GInv (s : shared * list thr) : Prop :=
     ShInv (fst s) /\
@@ -484,14 +509,18 @@ Section Sys.
                           | ADrop j => if N.eqb i j then false else rguard s i
                           | _ => rguard s i
                           end.
-  Proof. destruct a; reflexivity. Qed.
+  Proof.
+    destruct a; try reflexivity; cbn.
+    - destruct (cexists s && cttl s); reflexivity.
+    - destruct (cexists s); reflexivity.
+  Qed.
 
   Lemma ginv_step s k : GInv s -> GInv (sys_step _ _ dstepF s k).
   Proof.
     destruct s as [sh ls]. unfold GInv, sys_step. cbn [fst snd].
     intros (Hs & Hnd & Hmk & Hth).
     destruct (nth_error ls k) as [t|] eqn:Ek; [|cbn; auto].
-    unfold dstep. destruct (decide true true reg cloud t sh) as [t' a] eqn:Ed. cbn [fst snd].
+    unfold dstep. destruct (decide true true true reg cloud t sh) as [t' a] eqn:Ed. cbn [fst snd].
     destruct (nth_error_split_upd ls k t t' Ek) as (l1 & l2 & El & Eu). rewrite Eu. subst ls.
     assert (Ht : ThrOk sh t) by (apply Hth, in_or_app; right; now left).
     pose proof (decide_ok reg cloud sh t Hs Ht) as Hok. rewrite Ed in Hok.
@@ -543,11 +572,11 @@ Section Sys.
   Qed.
 
   (* callers at the start: idle, nothing created yet, scripts without counter loss *)
-  Definition fresh_thr (t : thr) : Prop := pc t = Idle /\ held t = [] /\ out t = [] /\ no_reset (ops t).
+  Definition fresh_thr (t : thr) : Prop := pc t = Idle /\ held t = [] /\ out t = [].
 
   Lemma shinv_empty : ShInv empty_store.
   Proof.
-    unfold ShInv, empty_store; cbn. split; [reflexivity|split; [exact I|split; [intros n i c []|split; [reflexivity|discriminate]]]].
+    unfold ShInv, empty_store; cbn. split; [reflexivity|split; [exact I|split; [intros n i c []|split; [reflexivity|split; [discriminate|reflexivity]]]]].
   Qed.
 
   Lemma ginv_init ts : (forall t, In t ts -> fresh_thr t) -> GInv (empty_store, ts).
@@ -558,12 +587,12 @@ Section Sys.
       apply IH. intros x Hx. apply Hf. now right. }
     unfold GInv; cbn [fst snd]. rewrite Hg.
     split; [exact shinv_empty|split; [constructor|split; [intros i []|]]].
-    intros t Ht. destruct (Hf t Ht) as (Hp & Hh & Ho & Hn).
-    unfold ThrOk, H_ok, O_ok. rewrite Hp, Hh, Ho. cbn. split; [intros i n []|split; [intros r []|split; [exact Hn|exact I]]].
+    intros t Ht. destruct (Hf t Ht) as (Hp & Hh & Ho).
+    unfold ThrOk, H_ok, O_ok. rewrite Hp, Hh, Ho. cbn. split; [intros i n []|split; [intros r []|exact I]].
   Qed.
 
   Theorem ginv_all_schedules ts sched :
-    (forall t, In t ts -> fresh_thr t) -> GInv (drun true true reg cloud empty_store ts sched).
+    (forall t, In t ts -> fresh_thr t) -> GInv (drun true true true reg cloud empty_store ts sched).
   Proof.
     intros Hf. unfold drun. apply inv_all_schedules; [intros s i; apply ginv_step|now apply ginv_init].
   Qed.
@@ -672,7 +701,7 @@ Section Consequences.
     In (EvClaim (extractDomain h) i c) (log s) /\ In (EvWrite i c tg) (log s) /\
     exists r, recs s i = Some r /\ r_client r = c /\ r_target r = tg /\ is_active r now = true.
   Proof.
-    intros Hs. pose proof Hs as (Hidx & _ & _ & _ & Hrec). unfold lookup_now.
+    intros Hs. pose proof Hs as (Hidx & _ & _ & _ & Hrec & _). unfold lookup_now.
     destruct (idx s (extractDomain h)) as [j|] eqn:Ei; [|intros E; exfalso; exact (fallback_not_repo _ _ _ _ _ _ _ E)].
     destruct (recs s j) as [m|] eqn:Er; [|intros E; exfalso; exact (fallback_not_repo _ _ _ _ _ _ _ E)].
     destruct (is_active m now) eqn:Ea; [|destruct (is_expired m now); discriminate].
@@ -690,7 +719,7 @@ Section Consequences.
     idx s n = None /\
     (forall h now h' i c tg, extractDomain h = n -> lookup_now reg cloud s h now <> RRouted 1 h' i c tg) /\
     (forall t i tgt fs, pc t = PCSetNX i n tgt -> next_fault t = (false, fs) ->
-       decide true true reg cloud t s = (goto t fs (PCSetRec i n tgt), AClaim n i (cl t))).
+       decide true true true reg cloud t s = (goto t fs (PCSetRec i n tgt), AClaim n i (cl t))).
   Proof.
     intros Hs Hh. pose proof Hs as (Hidx & _). assert (Hi : idx s n = None) by (rewrite Hidx; exact Hh).
     split; [exact Hi|split].
@@ -706,7 +735,7 @@ Section Consequences.
   Lemma foreign_delete_refused t s r rest m fs :
     pc t = Idle -> ops t = ODelete r :: rest -> next_fault t = (false, fs) ->
     recs s (resolve t r) = Some m -> r_client m <> cl t ->
-    dstep true true reg cloud t s = (finish t fs (RErr EForbidden), s).
+    dstep true true true reg cloud t s = (finish t fs (RErr EForbidden), s).
   Proof.
     intros Hp Ho Hf Hr Hc. unfold dstep, decide. rewrite Hf, Hp, Ho, Hr.
     apply N.eqb_neq in Hc. rewrite Hc. reflexivity.
@@ -715,7 +744,7 @@ Section Consequences.
   (* second read of a lookup: an inactive or expired record is an error, not a fall-through to the other sources *)
   Lemma inactive_or_expired_step t s h n i now m fs :
     pc t = PCLRec h n i now -> next_fault t = (false, fs) -> recs s i = Some m -> is_active m now = false ->
-    dstep true true reg cloud t s =
+    dstep true true true reg cloud t s =
       (finish t fs (RErr (if is_expired m now then EForbidden else EUnavailable)), s).
   Proof.
     intros Hp Hf Hr Ha. unfold dstep, decide. rewrite Hf, Hp, Hr, Ha. destruct (is_expired m now); reflexivity.
@@ -724,10 +753,13 @@ Section Consequences.
   Section Reach.
     Variables (ts : list thr) (sched : list nat).
     Hypothesis Hfresh : forall t, In t ts -> fresh_thr t.
-    Let s := drun true true reg cloud empty_store ts sched.
+    Let s := drun true true true reg cloud empty_store ts sched.
 
     Lemma reach_shinv : ShInv (fst s).
     Proof. exact (proj1 (ginv_all_schedules reg cloud ts sched Hfresh)). Qed.
+
+    Lemma reach_counter_no_deadline : cttl (fst s) = false.
+    Proof. destruct reach_shinv as (_ & _ & _ & _ & _ & H). exact H. Qed.
 
     Lemma single_owner :
       (forall n, idx (fst s) n = holder n (log (fst s))) /\
@@ -768,7 +800,7 @@ Section Consequences.
       idx (fst s) n = None /\
       (forall h now h' i' c' tg, extractDomain h = n -> lookup_now reg cloud (fst s) h now <> RRouted 1 h' i' c' tg) /\
       (forall t i' tgt fs, pc t = PCSetNX i' n tgt -> next_fault t = (false, fs) ->
-         decide true true reg cloud t (fst s) = (goto t fs (PCSetRec i' n tgt), AClaim n i' (cl t))).
+         decide true true true reg cloud t (fst s) = (goto t fs (PCSetRec i' n tgt), AClaim n i' (cl t))).
     Proof.
       intros E. pose proof reach_shinv as Hs. pose proof Hs as (_ & Hok & _).
       split.
@@ -779,9 +811,8 @@ Section Consequences.
 End Consequences.
 
 Example fresh_premises :
-  forall t, In t [init_thr 1 [OCreate [97] [116] 11; ODelete (Mine 0)] []; init_thr 1 [ODelete (Abs 1)] [false; true];
+  forall t, In t [init_thr 1 [OCreate [97] [116] 11; ODelete (Mine 0)] []; init_thr 1 [ODelete (Abs 1); OResetCounter] [false; true];
                   init_thr 2 [OCreate [97] [116] 22; OLookup [97; 46; 116; 58; 56; 48] 5] []] -> fresh_thr t.
 Proof.
-  intros t [<-|[<-|[<-|[]]]]; (split; [reflexivity|split; [reflexivity|split; [reflexivity|]]]);
-    intros x Hx; cbn in Hx; intuition (subst; discriminate).
+  intros t [<-|[<-|[<-|[]]]]; (split; [reflexivity|split; reflexivity]).
 Qed.
